@@ -1,16 +1,115 @@
 (* C06 -- Hostile peer input never crashes the node.  Statements only; every proof is [exact <lemma>].
 
-   Vocabulary (model/NoPanic.v): [entry_input] describes, for every peer-facing entry point, what a
-   remote peer can deliver (decoded messages with every field optional and of any length, frame
-   classes, read/write failures at any position); [panics i] is the condition under which the Go
-   code as it is now panics on i; [panics_gen f] the same with some of the three repairs
-   (c3de1fc, c47eaee, 1f15f90) removed. *)
+   Two layers.
+   (1) Over the subsystem models that carry an explicit Panic outcome -- model/Signer.v (eipVerify,
+       VerifyBid, VerifyPreConfirmation, ConstructPreConfirmation), model/PreconfBidder.v (SendBid and
+       its per-provider goroutines), model/BidderApi.v (the loop that maps surfaced commitments to API
+       messages) -- the theorems quantify over every message value (every field absent / of any
+       length / any text), every hash function K and every crypto oracle that does not itself panic.
+   (2) Over the entry classification model/NoPanic.v, which covers every peer-facing entry point
+       (also those whose models have no Panic outcome at all: handshake Handle / Handshake and their
+       callers in libp2p.go, discovery's handlePeersList, ReadMsg / ReadHeader, Connect on gossiped
+       underlays): [entry_input] describes what a remote peer can deliver, [panics i] the condition
+       under which the Go code as it is now panics on i, [panics_gen f] the same with some of the
+       three repairs (c3de1fc, c47eaee, 1f15f90) removed.  The classification is what the drivers
+       compare the real entry points against on every run (check/Check_C06.v).
+
+   Premises, all explicit: [recover_total cr] = crypto.SigToPub returns an error instead of
+   panicking; [sign_wellformed cr] = the node's own key signer answers with an error or 65 bytes;
+   [real_verify K cr o] = the signer oracle of the SendBid model is the Signer model's verifier. *)
 From Coq Require Import String List NArith ZArith Bool.
-From MevVerif Require Import lib.Bytes model.NoPanic proofs.NoPanic_proofs.
+From MevVerif Require Import lib.Bytes model.NoPanic model.Eip712 model.Signer proofs.NoPanic_proofs.
+From MevVerif Require model.PreconfBidder model.BidderApi.
 Import ListNotations.
 Open Scope N_scope.
 
-(* Over the entry classification: no input to any entry makes the current code panic. *)
+(* ---- (1) the models with Panic outcomes ------------------------------------------------------------ *)
+
+(* VerifyBid: no Bid value -- digest / signature absent, empty, short, long, any amount text, any
+   numbers -- makes it panic. *)
+Theorem C06_no_panic_verify_bid : forall K cr (b : bid),
+  recover_total cr -> verify_bid K cr b <> Panic.
+Proof. exact signer_verify_bid_no_panic. Qed.
+Print Assumptions C06_no_panic_verify_bid.
+
+(* VerifyPreConfirmation: the same for commitments, including those without an embedded bid. *)
+Theorem C06_no_panic_verify_preconf : forall K cr (c : preconf),
+  recover_total cr -> verify_preconf K cr c <> Panic.
+Proof. exact signer_verify_preconf_no_panic. Qed.
+Print Assumptions C06_no_panic_verify_preconf.
+
+(* ConstructPreConfirmation on the bid handleBid decoded (a value, never a nil pointer). *)
+Theorem C06_no_panic_construct_preconf : forall K cr (b : bid),
+  recover_total cr -> sign_wellformed cr -> construct_preconf K cr (Some b) <> Panic.
+Proof. exact signer_construct_preconf_no_panic. Qed.
+Print Assumptions C06_no_panic_construct_preconf.
+
+(* handleBid parses the amount again after VerifyBid accepted the bid and hands the result to
+   StoreCommitment, which dereferences it: the parse cannot fail there.
+   _partial: stated over the Signer / Eip712 models only; the handler machine model/PreconfProvider.v
+   (its RPanic outcome is exactly "amount does not parse after the verify gate said yes", with the
+   gate an oracle) was still being edited by its owner when this file was written, so the theorem does
+   not mention it.  The handler as a whole is covered by layer (2) and by the handle-bid driver. *)
+Theorem C06_handle_bid_amount_parses_partial : forall K cr (b : bid) a,
+  verify_bid K cr b = Ok a ->
+  exists z, parse_amount (b_amt b) = Some z /\ amount_out_of_range z = false.
+Proof. exact verified_amount_parses. Qed.
+Print Assumptions C06_handle_bid_amount_parses_partial.
+
+(* Before c3de1fc / c47eaee the verifier did panic: a 3-byte signature behind a matching digest,
+   and a commitment without a bid.  The same messages are refused with an error now. *)
+Theorem C06_verify_bid_v0_refuted :
+  exists K cr b, recover_total cr /\ verify_bid_v0 K cr b = Panic /\ verify_bid K cr b = Err E_SIG.
+Proof. exact signer_verify_bid_v0_refuted. Qed.
+Print Assumptions C06_verify_bid_v0_refuted.
+
+Theorem C06_verify_preconf_v0_refuted :
+  exists K cr c, recover_total cr /\ verify_preconf_v0 K cr c = Panic /\ verify_preconf K cr c = Err E_MISSING.
+Proof. exact signer_verify_preconf_v0_refuted. Qed.
+Print Assumptions C06_verify_preconf_v0_refuted.
+
+(* SendBid: whatever the providers answer (any number of them, any reply script: refusals, errors,
+   silence, any decodable commitment), none of the call's goroutines panics. *)
+Theorem C06_no_panic_send_bid_replies : forall K cr o a view D,
+  recover_total cr -> real_verify K cr o -> PreconfBidder.construct o a <> Panic ->
+  PreconfBidder.send_bid o a view D <> PreconfBidder.SPanic.
+Proof. exact send_bid_replies_no_panic. Qed.
+Print Assumptions C06_no_panic_send_bid_replies.
+
+(* The bidder API loop (b := resp.Bid; ... b.TxHash ...) on the channel SendBid returns: every
+   element carries its bid, so the loop never dereferences nil -- for every signer oracle, every
+   reply script, every position at which the client stream fails. *)
+Theorem C06_no_panic_bidder_api : forall o a view D r fail_at,
+  PreconfBidder.send_bid o a view D = PreconfBidder.SRun r ->
+  fst (BidderApi.stream_loop (api_channel r) fail_at) <> BidderApi.RPanic.
+Proof. exact bidder_api_no_panic. Qed.
+Print Assumptions C06_no_panic_bidder_api.
+
+(* ---- (2) every entry point, over the classification -------------------------------------------------- *)
+
+(* No input to any peer-facing entry makes the code as it is now panic: hostile Bid /
+   PreConfirmation values at VerifyBid, VerifyPreConfirmation, ConstructPreConfirmation, handleBid,
+   SendBid's reply path and the API loop behind it; any signature length at signer.Verify; any
+   script of requests / responses / read and write failures at Handle and Handshake; any PeerList;
+   every frame class at ReadMsg / ReadHeader; raw bytes at proto.Unmarshal; garbage underlays at
+   Connect; and a hostile handshake partner of a Service with or without a metrics registry. *)
 Theorem C06_no_panic_any_entry : forall i : entry_input, panics i = false.
 Proof. exact panics_never. Qed.
 Print Assumptions C06_no_panic_any_entry.
+
+(* Exactly where the snapshot's VerifyBid panicked: digest and signature present, the amount
+   parses, the digest matches, and the signature has at most 64 bytes -- nowhere else. *)
+Theorem C06_verify_bid_v0_panics_iff : forall f b, f_siglen f = false ->
+  (verify_bid_in f b = VPanic <->
+   exists d n, bi_dig b = Some d /\ bi_sig b = Some n /\ bi_amt_ok b = true /\
+               bi_hash_ok b = true /\ n <= 64).
+Proof. exact verify_bid_in_v0_iff. Qed.
+Print Assumptions C06_verify_bid_v0_panics_iff.
+
+(* Without 1f15f90 every failed handshake, inbound or outbound, crashed a Service that was created
+   without a metrics registry. *)
+Theorem C06_handshake_failure_v0_refuted :
+  panics_gen without_metrics (EE2EInbound false E2ForeignSig) = true /\
+  panics_gen without_metrics (EE2EOutbound false E2Garbage) = true.
+Proof. exact e2e_v0_refuted. Qed.
+Print Assumptions C06_handshake_failure_v0_refuted.
